@@ -4,7 +4,8 @@
     translator cannot take (pointer receivers, closures, recursion, loops with break).
     Every float leaf is the translated one from Gen/Approx.v and its dependencies. *)
 From Coq Require Import ZArith List Bool Floats.
-From Geo Require Import Base.GoPrim Gen.Approx.
+From Geo Require Import Base.GoPrim Gen.EdgeDist Gen.Approx.  (* s2_Interpolate lives in Gen.EdgeDist since the C17 merge *)
+From Geo Require Import Gen.Area.  (* s2_maxAngle *)
 Import ListNotations.
 Local Open Scope bool_scope.
 
